@@ -19,9 +19,12 @@
 (*                            goroutine of the limiter blocked; recv: the      *)
 (*                            consumer is waiting in its receive (a prompt     *)
 (*                            consumer always is; a slow one only when it asked)*)
-(*   stuck {n,run}            end of the run: n calls of Add/Close never       *)
+(*   new_err                  the constructor refused the run's configuration  *)
+(*                            (the harness only uses legal ones)               *)
+(*   stuck {n,run,clock}      end of the run: n calls of Add/Close never       *)
 (*                            returned; run: Run never returned although its   *)
-(*                            context was cancelled or Close was called        *)
+(*                            context was cancelled or Close was called;       *)
+(*                            clock: a step of the injected clock never returned*)
 (*                                                                            *)
 (* The statement is about WHEN signals are emitted.  What a client cannot see *)
 (* is the instant an Add takes effect (somewhere inside the call), the instant *)
@@ -128,7 +131,8 @@ CRunRet(c, e) ==
   ELSE [c EXCEPT !.S = {s \in c.S : ~s.on}]
 
 CStuck(c, e) ==
-  IF e.n > 0 THEN Bad("deadlock: a call of Add or Close never returned")
+  IF e.clock THEN Bad("deadlock: the injected clock could not be stepped: it blocks on a timer of the limiter whose channel still holds an unread expiry")
+  ELSE IF e.n > 0 THEN Bad("deadlock: a call of Add or Close never returned")
   ELSE IF e.run THEN Bad("deadlock: Run never returned after its context was cancelled or Close was called")
   ELSE c
 
@@ -143,6 +147,7 @@ CNext(c, e) ==
          [] e.ev = "close_call" -> With([c EXCEPT !.canStop = TRUE], c.S)
          [] e.ev = "close_ret"  -> CCloseRet(c, e)
          [] e.ev = "run_ret"    -> CRunRet(c, e)
+         [] e.ev = "new_err"    -> Bad("config: NewCoalescing refused a legal configuration (0 < InitialDelay <= MaxDelay, cap unset or positive)")
          [] e.ev = "run2_call"  -> c      \* Run called again on the running (or ended) limiter: the statement is
          [] e.ev = "run2_ret"   -> c      \* about the running limiter, whose behaviour this must not change
          [] e.ev = "quiescent"  -> CQuiescent(c, e)
